@@ -68,6 +68,15 @@ class Sub3(Base):
         self.opts = opts
 
 
+class BadDefault(Base):
+    """a declared default that does not validate against its own annotation"""
+
+    def __init__(self, n: float = 2, k: int = 0.5, files: List[Path_fr] = ["no-such-file.txt"]):
+        self._rec(n=n, k=k, files=files)
+        self.n = n
+        self.k = k
+
+
 class Unrelated(SimObj):
     def __init__(self, q: int = 0):
         self._rec(q=q)
